@@ -105,7 +105,9 @@ var $callDeferred = (deferred, jsErr, fromPanic) => {
         $callDeferred(deferred, e, fromPanic);
     } finally {
         if (localPanicValue !== undefined) {
-            if ($panicStackDepth !== null) {
+            /* Put the panic back only when a deferred call blocked and the unwinding resumes later.
+               Otherwise this panic was replaced by a newer one that has been recovered, and is over. */
+            if ($panicStackDepth !== null && $curGoroutine.asleep) {
                 $curGoroutine.panicStack.push(localPanicValue);
             }
             $panicStackDepth = outerPanicStackDepth;
